@@ -420,4 +420,20 @@ def run(ctx):
         run.instance(R6, {"fn": "decrypt_request", "obligation": "decryption only for an envelope whose method is encrypted_request_v3"}, held=h_m)
         if not h_m:
             run.finding(Finding(R6, dq.id, "the envelope's method is never compared with encrypted_request_v3: an envelope with any other method is decrypted and served", site=dq.loc()))
+    R7 = "C13.R7"
+    run.rule(R7, "the reply is sealed under the key that opened the request: decrypt_request and encrypt_response are handed one per-request key (a single read of the listener's key), not the listener's shared key handle read twice - another connection can re-key the listener while the request is being served", floor=1)
+    if fn:
+        dcs = cfg.find_calls(fn, H + "decrypt_request")
+        ecs = cfg.find_calls(fn, H + "encrypt_response")
+        if not dcs or not ecs:
+            run.error("C13.R7: decrypt_request / encrypt_response calls not found in call_api")
+        else:
+            def _fresh(o):
+                pr = vf.producers(fn, {"c": [vf.strip_clones(fn, o), []]})
+                return bool(pr) and all(x[0] == "call" for x in pr)
+            bases = {vf.strip_clones(fn, t["a"][0]) for _b, t in dcs + ecs}
+            held = len(bases) == 1 and all(_fresh(t["a"][0]) for _b, t in dcs + ecs)
+            run.instance(R7, {"fn": "call_api", "obligation": "one key value per request: the key operands of decrypt_request and encrypt_response are the same local, created for this request", "key locals": sorted(fn.local_name(l) for l in bases)}, held=held)
+            if not held:
+                run.finding(Finding(R7, CALL_API, "decrypt_request and encrypt_response each read the listener's shared key: if another connection calls init_secure_api while the request is being served, the reply is sealed under that other party's key (the caller cannot read it, the other party can)", site=fn.loc()))
     run.not_decided += ["AES-GCM itself", "HTTP framing / hyper", "that a superseded key cannot decrypt (follows from R4 + AEAD semantics, not decided here)"]
